@@ -493,7 +493,64 @@ func obsAtoms(o jObs) map[string]any {
 		"err": errRec, "bodyBack": o.CallErr == "" && o.RespBodyOK, "seen": o.Seen}
 }
 
+// replayC40 re-runs the single round trip of a saved violation.
+func replayC40(c *core.Ctx) error {
+	var rf struct {
+		Key    string `json:"key"`
+		Replay struct {
+			Env       envCfg `json:"env"`
+			Case      jCase  `json:"case"`
+			ModelCase mCase  `json:"model_case"`
+			Expected  *mExp  `json:"expected"`
+		} `json:"replay"`
+	}
+	lines, err := readLines(c.Replay)
+	if err != nil {
+		return err
+	}
+	if err := json.Unmarshal([]byte(strings.Join(lines, "\n")), &rf); err != nil {
+		return err
+	}
+	drvPath, err := buildDriver(c)
+	if err != nil {
+		return err
+	}
+	env := rf.Replay.Env
+	if env.Net == "" {
+		env = envCfg{Net: "tcp4", MaxWorkers: 4}
+	}
+	it := xItem{m: rf.Replay.ModelCase, j: rf.Replay.Case}
+	obs, _, err := runExtras(c, drvPath, env, []xItem{it})
+	if err != nil {
+		return err
+	}
+	c.Add("evaluations", 1)
+	c.Sample(map[string]any{"case": it.j, "observed": obs[0]})
+	if rf.Replay.Expected != nil {
+		if bad := compareExtras(it.m, *rf.Replay.Expected, obs[0]); bad != "" {
+			c.Violate(rf.Key, "replayed round trip still differs from RpcExtras: "+bad, map[string]any{"env": env, "case": it.j, "model_case": it.m, "expected": rf.Replay.Expected})
+		}
+		return nil
+	}
+	// violation found by trace validation: let TLC judge the single round trip again
+	trace := toNDJSON([]event{{"tc": it.m, "obs": obsAtoms(obs[0])}})
+	r, err := c.TLC(core.TLCOpts{Module: "TraceRpcExtras", Cfg: "TraceRpcExtras.cfg", Files: map[string][]byte{"trace.ndjson": trace}, Workers: 1, Timeout: 5 * time.Minute})
+	if err != nil {
+		return err
+	}
+	c.Add("states", r.Distinct)
+	if !r.OK {
+		c.Violate(rf.Key, "replayed round trip is not a behaviour of RpcExtras: "+string(trace), map[string]any{"case": it.j, "model_case": it.m})
+	} else {
+		c.Add("traces_validated_against_impl", 1)
+	}
+	return nil
+}
+
 func runC40(c *core.Ctx) error {
+	if c.Replay != "" {
+		return replayC40(c)
+	}
 	var drvPath string
 	var buildErr error
 	buildDone := make(chan struct{})
